@@ -2,25 +2,25 @@
 """Regenerate /verif/MANIFEST.json from the table below (kept next to the checks so that it stays current)."""
 import json
 CLAIMED = {
- 'C01': ('proof', 'structural Coq lemmas (all Ops): lane-wise primitive / lane-uniformity / predicate formulas per operation, 5 tables; differential correspondence', 'partial: that multi-instruction SSE2 lane functions equal the IEEE primitive (floor/ceil/trunc/round/%, sign-bit tricks) is not proved here; SSE2 round and % are known deviations (DESIGN 12.3)'),
- 'C02': ('proof', 'algebraic Coq lemmas over an arbitrary field: dot, cross, perp_dot, length(_squared), distance(_squared), element sum/product, project/reject, reflect = the textbook formulas (the exact real-arithmetic value the property measures against), 7 types x 3 backends', 'PARTIAL: the rounding-error bounds (few epsilon times sum of magnitudes), the normalize family, refract and angle_between accuracy are NOT proved; they are exercised differentially only'),
+ 'C01': ('proof', 'structural Coq lemmas (all Ops): every element-wise operation of the 7 float vector types in 5 tables is the lane-wise primitive; for the multi-instruction SSE2 operations the code is proved to apply the lane functions floor/ceil/trunc/round_lane of FloatTricks.v, which are proved (Flocq) equal to IEEE roundToIntegral in the respective direction and to the Rust primitive for every binary32; predicates/reductions as boolean/fold formulas; differential correspondence', 'partial: abs/signum/copysign/recip/exp/powf/euclid bit tricks of SSE2 are lane-uniform + differential only; SSE2 % is a known finding (floored remainder), pinned by a second lemma (DESIGN 12.3)'),
+ 'C02': ('proof', 'algebraic Coq lemmas over an arbitrary field: dot, cross, perp_dot, length(_squared/_recip), distance(_squared), element sum/product, project/reject, reflect, normalize, try_normalize/normalize_or(_zero) (every path), refract (both paths), angle_between/angle_to = arccos of the textbook cosine (acos_approx abstracted) - the exact real-arithmetic value the property measures against; 7 types x 3 backends', 'PARTIAL: the rounding-error bounds (few epsilon times sum of magnitudes) and the accuracy of acos_approx are NOT proved; exercised differentially only'),
  'C03': ('proof', 'algebraic Coq lemmas over an arbitrary field: determinant = Leibniz, inverse = adjugate/det, products, entry-wise ops; 7 types x 3 backends', 'partial: rounding-error bounds and lattice exactness are differential only'),
  'C04': ('proof', 'algebraic Coq lemmas over an arbitrary field: Hamilton product, conjugate, q*v = vec(q v conj q) for every q; rotation laws in QuatAlg.v', 'partial: rounding-error bounds are not proved'),
- 'C05': ('proof', 'algebraic / structural Coq lemmas: from_quat for every matrix and affine type = the same R(q); Mat3<->Mat3A, embeddings into Mat4, Affine<->matrix conversions carry the same entries; affine product and inverse formulas; f32<->f64 entry-wise', 'partial: matrix -> quaternion (four branches) and float-level agreement of conversion chains are differential only'),
+ 'C05': ('proof', 'algebraic / structural Coq lemmas: from_quat for every matrix and affine type = the same R(q); Mat3<->Mat3A, embeddings into Mat4, Affine<->matrix conversions carry the same entries; affine product and inverse formulas; f32<->f64 entry-wise; matrix -> quaternion: each of the four branches returns the stated formulas, which recover +-q from R(q) over the reals (FromMatAlg.v)', 'partial: float-level agreement of conversion chains is differential only'),
  'C06': ('proof', 'structural Coq lemmas: every accessor/constructor/minor/col/row/transpose as entry moves, M*v and affine transforms as sums, 11 types x 3 backends', 'trusted: column-major entry view in harness/props/C06.py'),
- 'C07': ('proof', 'identity of the +fma and default translations (interned definitions); C03/C04 lemma families for three backends against common formulas; 4-build differential run', 'partial: LLVM not contracting FP ops is observed, not modelled; re-association slack observed not derived'),
- 'C08': ('proof', 'non-interference lemmas (all Ops with Rust integer semantics): result modulo hidden lanes is the same for two independent hidden-lane contents', 'partial: lemmas exceeding the per-lemma time limit are deferred (listed in evidence); thorough tier uses a 300 s limit'),
- 'C09': ('proof', 'algebraic Coq lemmas: axis-angle = Rodrigues / (a sin, cos), single-axis rotations, all 24 Euler orders as products of elementary rotations / quaternions; RotAlg.v (orthonormal, det 1, quaternion-matrix agreement)', 'partial: extraction direction (to_euler ...) and float error near singularities are differential only; sin/cos uninterpreted (odd/even)'),
+ 'C07': ('proof', 'identity of the +fma and default translations except mul_add (both the fused primitive, C01); C03/C04 lemma families for three backends against common formulas; 4-build differential run', 'partial: LLVM not contracting FP ops is observed, not modelled; re-association slack observed not derived'),
+ 'C08': ('proof', 'non-interference lemmas (all Ops with Rust integer semantics): result modulo hidden lanes is the same for two independent hidden-lane contents', 'partial: lemmas not decided within the long per-lemma limit are listed in the evidence'),
+ 'C09': ('proof', 'algebraic Coq lemmas: axis-angle = Rodrigues / (a sin, cos), single-axis rotations, all 24 Euler orders as products of elementary rotations / quaternions; RotAlg.v (orthonormal, det 1, quaternion-matrix agreement)', 'partial: extraction direction (to_euler ...) and float error near singularities are not proved; sin/cos uninterpreted (odd/even); no bit-level correspondence for trigonometric results'),
  'C10': ('proof', 'algebraic Coq lemmas: every SRT constructor = translation * rotation * scale entries, 10 types x 3 backends', 'partial: decomposition (to_scale_rotation_translation) is differential only'),
  'C11': ('proof', 'algebraic Coq lemmas: perspective_*/orthographic_* = documented matrices, project/transform = M(p,1)/w; frustum facts in ProjAlg.v', 'partial: look_to/look_at are differential only'),
- 'C12': ('proof', 'algebraic Coq lemmas: lerp = a(1-s)+bs, midpoint, any_orthonormal_vector/pair = the Duff et al. construction; endpoint and orthogonality facts in InterpAlg.v', 'partial: slerp, quaternion lerp, move_towards, rotate_towards, from_rotation_arc, clamp_length*, any_orthogonal_vector are differential (and C18 panic-freedom) only'),
+ 'C12': ('proof', 'algebraic Coq lemmas: lerp = a(1-s)+bs, midpoint, any_orthonormal_vector/pair = the Duff et al. construction (laws in InterpAlg.v), clamp_length/_min/_max and move_towards on every path', 'partial: slerp, quaternion lerp, rotate_towards, from_rotation_arc, any_orthogonal_vector are differential (and C18 panic-freedom) only'),
  'C13': ('proof', 'structural Coq lemmas (all Ops): every table method of the 27 integer vector types = lane-wise/left-fold primitive; IntSpec.v ties compare-select forms to min/max/clamp/positions over Z', 'trusted: ZInt semantics in Sem.v validated differentially'),
  'C14': ('proof', 'structural Coq lemmas (all Ops): as_*, From, TryFrom, mask-to-number, pair/extend/truncate conversions lane by lane', 'trusted: cast semantics of Sem.v validated on boundary values'),
- 'C15': ('proof', 'structural Coq lemmas: cmp*/select on all vector types; mask algebra on the five mask types (SSE2 register masks by exhaustive enumeration in the IEEE instance)', 'partial: Hash/Debug/Display of masks not modelled'),
+ 'C15': ('proof', 'structural Coq lemmas: cmp*/select on all vector types; mask algebra on the five mask types (SSE2 register masks by exhaustive enumeration in the IEEE instance); test/set panic outside 0..N', 'partial: Hash/Debug/Display of masks not modelled'),
  'C16': ('proof', 'structural Coq lemmas (all Ops): every swizzle getter and with_ setter of every vector type in three backends', 'trusted: method-name spec'),
  'C17': ('proof', 'structural Coq lemmas: constructors, constants, readers, writers against the list-of-lanes view; generic history refinement theorem AccessHist.v', 'partial: Debug/Display not modelled; the history theorem is generic (not instantiated per type)'),
- 'C18': ('proof', 'outcome lemmas (all Ops with Rust integer semantics): Ok for every public float function x literal index/order/slice length, Panic exactly outside documented bounds, exact first-N slice read/write', 'partial: machine-level memory facts (ASan) outside the model; to_euler family deferred in the quick tier'),
- 'C20': ('proof', 'assertion-erasure lemmas per function; identical-definition count; documented-violation witnesses on model and crate', 'partial: numeric margins of is_normalized checks and chains are differential only'),
+ 'C18': ('proof', 'outcome lemmas (all Ops with Rust integer semantics): Ok for every public float function x literal index/order/slice length, Panic exactly outside documented bounds, exact first-N slice read/write', 'partial: machine-level memory facts (ASan) outside the model'),
+ 'C20': ('proof', 'generic assertion-erasure theorem (Erase.v) instantiated per function pair: whatever the glam-assert build returns the plain build returns, for all Ops, arguments and fuel; documented-violation witnesses on model and crate', 'partial: numeric margins of is_normalized checks along chains are differential only'),
 }
 NOT_BUILT = {
  'C19': 'not built in this round: the optional-feature sources (serde/bytemuck/rkyv/mint) are not translated; the technique applies to the lane-order/layout core',
